@@ -238,6 +238,90 @@ def ob_documented_variables(env):
         env.claim("documented_variable_has_a_writer:" + nm, nm in written)
 
 
+def ob_documented_variables_collected(env):
+    """the real BoutMesh.geometry collection stage run for every accepted value of the options it branches on: every documented field variable is
+    collected for output whatever the option values (a value for which generation is refused is skipped: no file is written then)"""
+    import re
+    doc = open(os.path.join(REPO, "doc", "grid-file.rst")).read()
+    documented = set()
+    for line in doc.splitlines():
+        m = re.match(r"^\s*\* - (``.*)$", line)
+        if m:
+            documented.update(re.findall(r"``([^`]+)``", m.group(1)))
+    # values of curvature_type that the option set allows, minus those for which calc_curvature refuses outright (its branch is a bare raise)
+    allowed = list(mesh_mod.Mesh.user_options_factory.create({}).get_metadata("curvature_type").allowed) if hasattr(
+        mesh_mod.Mesh.user_options_factory.create({}), "get_metadata") else None
+    if not allowed:
+        allowed = ["curl(b/B)", "curl(b/B) with x-y derivatives", "bxkappa"]
+        for a in allowed:   # the list above must be what the option set accepts
+            mesh_mod.Mesh.user_options_factory.create({"curvature_type": a})
+    tree = ast.parse(textwrap.dedent(inspect.getsource(mesh_mod.MeshRegion.calc_curvature)))
+    refused = set()
+    for n in ast.walk(tree):
+        if isinstance(n, ast.If) and "curvature_type ==" in ast.unparse(n.test) and isinstance(n.body[0], ast.Raise) and len(n.test.comparators) == 1 \
+                and isinstance(n.test.comparators[0], ast.Constant):
+            refused.add(n.test.comparators[0].value)
+    accepted = [a for a in allowed if a not in refused]
+    if len(accepted) < 2:
+        raise core.HarnessError("expected at least two accepted curvature types, got %r" % (accepted,))
+    ct = accepted[env.choose(len(accepted))]
+    shifted, with_pressure = bool(env.choose(2)), bool(env.choose(2))
+    env.tag("curvature_type=%r shiftedmetric=%s pressure=%s" % (ct, shifted, with_pressure))
+
+    class Auto(dict):
+        def __missing__(self, k):
+            a = mesh_mod.MultiLocationArray(1, 1)
+            a.attributes = {}
+            self[k] = a
+            return a
+
+    class R:
+        pass
+    reg = R()
+    reg.__dict__ = Auto(myID=0, penalty_mask=numpy.zeros((1, 1)))
+    eqreg = types.SimpleNamespace()
+    if with_pressure:
+        eqreg.pressure = lambda psi: None
+    me = mesh_mod.BoutMesh.__new__(mesh_mod.BoutMesh)
+    me.nx = me.ny = 1
+    me.regions = {0: reg}
+    me.region_indices = {0: (slice(0, 1), slice(0, 1))}
+    me.fields_to_output, me.arrayXDirection_to_output = [], []
+    me.user_options = types.SimpleNamespace(curvature_type=ct, shiftedmetric=shifted, orthogonal=True)
+    me.equilibrium = types.SimpleNamespace(regions={"r": eqreg})
+    me.y_groups = [[reg]]
+    with patched((mesh_mod.Mesh, "geometry", lambda self: None)):
+        me.geometry()
+    env.witness("collected")
+    wsrc = ast.parse(textwrap.dedent(inspect.getsource(mesh_mod.BoutMesh.writeGridfile)))
+    direct, arrays, corners = set(), set(), set()
+    for n in ast.walk(wsrc):
+        if isinstance(n, ast.Call) and isinstance(n.func, ast.Attribute) and n.args and isinstance(n.args[0], ast.Constant) and isinstance(n.args[0].value, str):
+            if n.func.attr == "write" and ast.unparse(n.func.value) == "f":
+                direct.add(n.args[0].value)
+            elif n.func.attr == "writeArray":
+                arrays.add(n.args[0].value)
+        if isinstance(n, ast.For) and "writeCorners" in ast.unparse(n) and isinstance(n.iter, ast.List):
+            corners.update(e.value for e in n.iter.elts if isinstance(e, ast.Constant))
+    written = set(direct) | set(me.arrayXDirection_to_output)
+    for nm in list(me.fields_to_output) + list(arrays):
+        written.update({nm, nm + "_xlow", nm + "_ylow"})
+    for nm in corners:
+        written.update({nm + "_corners", nm + "_lower_right_corners", nm + "_upper_right_corners", nm + "_upper_left_corners"})
+    optional = set() if with_pressure else {"pressure"}     # documented as present only if the input had a pressure profile
+    for nm in sorted(documented - optional):
+        env.claim("documented_variable_collected_for_output:" + nm, nm in written)
+    env.claim("no_field_collected_twice", len(set(me.fields_to_output)) == len(me.fields_to_output))
+
+
+OBLIGATIONS.append(Ob("documented_variables_collected_under_every_option", ob_documented_variables_collected, tier="quick", family="file contents",
+                      encodes=["hypnotoad.core.mesh:BoutMesh.geometry"],
+                      desc="real BoutMesh.geometry collection on a stub region for every accepted curvature_type x shiftedmetric x pressure present/absent: "
+                           "every documented variable is among the names handed to the writer",
+                      stubs=["regions -> one 1x1 stub region holding every field", "Mesh.geometry (the per-region calculations) -> no-op"],
+                      bounds="option values enumerated by the explorer from the option set of the current source", max_paths=40))
+
+
 for _m in ("hypnotoad.scripts.hypnotoad_geqdsk", "hypnotoad.scripts.hypnotoad_circular"):
     OBLIGATIONS.append(Ob("script_option_filter_" + _m.rsplit("_", 1)[1], _mk_script_filter(_m), tier="quick", family="option guards", encodes=[_m + ":main"],
                           desc="the 'options that are not used' filter of the command-line entry point never rejects an option that the entry point itself reads "
